@@ -107,8 +107,8 @@ def Statement_generated_prefix_fresh : Prop :=
     expands through the document's own final `@prefix` table back to `u` — the table gives `d`
     exactly one namespace `n` (it is a dict) and `n ++ l = u`. -/
 def Statement_document_names_expand : Prop :=
-  ∀ (ops : List Op) (i : Bool) (qs : List (Str × Bool)) (d : Doc) (names : List (Str × Str × Str)),
-    (serDoc qs (St.init.run ops).store ((St.init.run ops).mgr i) Doc.empty []).2.2 = .ok (d, names) →
+  ∀ (ops : List Op) (i fb : Bool) (qs : List (Str × Bool)) (d : Doc) (names : List (Str × Str × Str)),
+    (serDoc fb qs (St.init.run ops).store ((St.init.run ops).mgr i) Doc.empty []).2.2 = .ok (d, names) →
       ∀ u dp l, (u, dp, l) ∈ names → ∃ n, alookup d.table dp = some n ∧ n ++ l = u
 
 /-! ### Proofs -/
@@ -136,9 +136,9 @@ theorem split_spec : Statement_split_spec :=
   fun _ _ _ _ h => ⟨splitUri_append h, splitUri_shape h⟩
 
 theorem document_names_expand : Statement_document_names_expand := by
-  intro ops i qs d names h
+  intro ops i fb qs d names h
   have hi := HInv.run ops HInv.init
-  exact (serDoc_all qs _ _ Doc.empty [] (hi.mgr i).1 (hi.mgr i).2
+  exact (serDoc_all fb qs _ _ Doc.empty [] (hi.mgr i).1 (hi.mgr i).2
     (by intro u dp l hm; exact absurd hm (by simp))).2 d names h
 
 theorem longest_is_longest : Statement_longest_is_longest := getLongest_build
@@ -191,9 +191,9 @@ example : pickNs (St.init.run exHist).store 3 1 = some [110, 115, 49] := by deci
 def sUv : Str := [95, 118]
 def sPv : Str := [112, 95, 118]
 def exCollide : List Op := [.bind false (some sUv) nsE true false, .bind false (some sPv) nsEa true false]
-example : ((St.init.run exCollide).step (.serdoc false [(nsE ++ [115], false), (iriX, true)])).2 =
+example : ((St.init.run exCollide).step (.serdoc false true [(nsE ++ [115], false), (iriX, true)])).2 =
     .doc [(sPv, nsE), (112 :: sPv, nsEa)] := by decide
-example : ((St.init.run exCollide).step (.serdoc false [(iriX, true), (nsE ++ [115], false)])).2 =
+example : ((St.init.run exCollide).step (.serdoc false false [(iriX, true), (nsE ++ [115], false)])).2 =
     .doc [(sPv, nsEa), (112 :: sPv, nsE)] := by decide
 
 /-- The non-override branch of `Memory.bind` as it was before the `fix:` commit: with `p → n1`,
